@@ -104,6 +104,12 @@ pub fn cases(tier: Tier) -> Vec<Case> {
             }
         }
     }
+    // extension outputs nested 1..12, 64 and 200 levels deep
+    for depth in (1usize..=12).chain([64, 200]) {
+        for attested in [None, Some((1u8, 16usize))] {
+            v.push(Case { rp: 1, counter: 2, flags: 0x05, assign_flags: true, attested, ext: 5, depth: 0, ext_len: Some(depth) });
+        }
+    }
     if tier == Tier::Thorough {
         // all two-byte corruptions of the two shortest encodings
         v.push(Case { rp: 1, counter: 1, flags: 0x05, assign_flags: true, attested: None, ext: 0, depth: 2, ext_len: None });
@@ -180,6 +186,18 @@ fn build(c: &Case) -> Result<Built, String> {
             let b: Vec<u8> = (0..c.ext_len.unwrap_or(48)).map(|i| (i as u8) ^ 0x33).collect();
             ad = ad.set_make_credential_extensions(Some(make_credential::SignedExtensionOutputs { hmac_secret: Some(true), hmac_secret_mc: Some(b.clone().into()) })).map_err(|e| format!("{e:?}"))?;
             ext = Some(Cbor::Map(vec![(Cbor::Text("hmac-secret".into()), Cbor::Bool(true)), (Cbor::Text("hmac-secret-mc".into()), Cbor::Bytes(b))]));
+        }
+        5 => {
+            // an extension output that is a container nested ext_len levels deep (the member is an
+            // arbitrary CBOR value; the public field is assigned directly)
+            let mut v = Cbor::Integer(1.into());
+            for k in 0..c.ext_len.unwrap_or(1) {
+                v = if k % 2 == 0 { Cbor::Array(vec![v]) } else { Cbor::Map(vec![(Cbor::Text("n".into()), v)]) };
+            }
+            let m = Cbor::Map(vec![(Cbor::Text("x-nested".into()), v)]);
+            ad.extensions = Some(m.clone());
+            ad.flags |= Flags::ED;
+            ext = Some(m);
         }
         3 => {
             let b: Vec<u8> = (0..c.ext_len.unwrap_or(32)).map(|i| 100u8.wrapping_add(i as u8)).collect();
@@ -472,6 +490,17 @@ pub fn eval_setters(seq: &[Setter]) -> Vec<Finding> {
             }
             if p.trailing != 0 {
                 bad("trailing-bytes", format!("{}", p.trailing));
+            }
+            // the value is what the LAST call of each setter made it
+            let want_id_len = seq.iter().rev().find_map(|s| match s {
+                Setter::Attested16 => Some(16usize),
+                Setter::Attested0 => Some(0),
+                _ => None,
+            });
+            if let (Some(w), Some(a)) = (want_id_len, &p.attested) {
+                if a.cred_id.len() != w {
+                    bad("earlier-setter-call-wins", format!("the last attested-data setter in {seq:?} set a {w}-byte credential id, the encoding carries a {}-byte one", a.cred_id.len()));
+                }
             }
         }
     }
